@@ -702,12 +702,13 @@ where
 
 impl<I: Integer, const N: usize> fmt::Display for Bvf<I, N> {
     fn fmt(&self, f: &mut fmt::Formatter<'_>) -> fmt::Result {
-        let base = Self::try_from(10u8).expect("Should fit in any Bvf type");
         let mut s = Vec::<char>::new();
         let mut quotient = *self;
         let mut remainder;
 
         while !quotient.is_zero() {
+            // Only a non zero value needs the base, which fits in any Bvf able to hold such a value
+            let base = Self::try_from(10u8).expect("Should fit in any non empty Bvf type");
             (quotient, remainder) = quotient.div_rem::<Bvf<I, N>>(&base);
             // Remainder of division by 10 will be a single digit
             s.push(char::from_digit(u32::try_from(&remainder).unwrap(), 10).unwrap());
@@ -907,10 +908,15 @@ macro_rules! impl_tryfrom { ($($type:ty),+) => {
                 // Branch should be optimized at compile time
                 if size_of::<I>() >= size_of::<$type>() {
                     let mut data = [I::ZERO; N];
-                    data[0] = I::cast_from(int);
+                    // A Bvf without any storage word (N = 0) can only hold the value 0
+                    match data.first_mut() {
+                        Some(d) => *d = I::cast_from(int),
+                        None if int == 0 => (),
+                        None => return Err(ConvertionError::NotEnoughCapacity),
+                    }
                     return Ok(Bvf {
                         data,
-                        length: <$type>::BITS as usize
+                        length: usize::min(<$type>::BITS as usize, Self::capacity())
                     });
                 }
                 else {
